@@ -228,9 +228,10 @@ func (v *Val) SDL(o *SDLOpts) string {
 		return v.Raw
 	case "str":
 		if v.Block {
-			// the lexer trims white space around block string content; content ending in a quote needs padding
+			// the lexer trims white space around block string content; content ending in a quote or a
+			// backslash needs padding
 			pad := ""
-			if strings.HasSuffix(v.Raw, `"`) || o.chance(1, 3) {
+			if strings.HasSuffix(v.Raw, `"`) || strings.HasSuffix(v.Raw, `\`) || o.chance(1, 3) {
 				pad = " "
 			}
 			lead := ""
